@@ -170,9 +170,22 @@ fn check_dimacs_sparse(clauses: &[Clause], map: &[usize], style: usize) -> Optio
     None
 }
 
+/// naming schemes for the s-expression variables: single letters, and names of different
+/// lengths whose length order disagrees with the documented lexicographic order
+const NAME_SCHEMES: [[&str; 6]; 3] = [["A", "B", "C", "D", "E", "F"], ["b", "aa", "ab", "c", "ba", "a"], ["x10", "x2", "x1", "x", "x20", "x3"]];
+
 fn check_sexpr(e: &Ex) -> Option<(String, String)> {
+    for names in NAME_SCHEMES.iter() {
+        if let Some(r) = check_sexpr_named(e, names) {
+            return Some(r);
+        }
+    }
+    None
+}
+
+fn check_sexpr_named(e: &Ex, names: &[&str; 6]) -> Option<(String, String)> {
     let (f, n) = e.tt();
-    let text = e.sexpr();
+    let text = e.sexpr_named(names);
     let parsed = match guarded(|| serde_sexpr::from_str::<LogicalSExpr>(&text)) {
         Ok(Ok(p)) => p,
         Ok(Err(x)) => return Some(("sexpr-parse".into(), format!("{} does not parse: {}", text, x))),
@@ -180,21 +193,39 @@ fn check_sexpr(e: &Ex) -> Option<(String, String)> {
     };
     // documented numbering: names sorted lexicographically
     let mapping = parsed.variable_mapping();
-    let names: Vec<usize> = e.vars();
-    for (i, v) in names.iter().enumerate() {
-        let got = mapping.get(&NAMES[*v].to_string()).cloned();
-        if got != Some(i) {
-            return Some(("sexpr-numbering".into(), format!("{}: variable {} is numbered {:?}, lexicographic position {}", text, NAMES[*v], got, i)));
+    let vars: Vec<usize> = e.vars();
+    let mut sorted: Vec<&str> = vars.iter().map(|v| names[*v]).collect();
+    sorted.sort();
+    // rank[i] = documented index of the i-th variable of e.vars()
+    let rank: Vec<usize> = vars.iter().map(|v| sorted.iter().position(|s| *s == names[*v]).unwrap()).collect();
+    for (i, v) in vars.iter().enumerate() {
+        let got = mapping.get(&names[*v].to_string()).cloned();
+        if got != Some(rank[i]) {
+            return Some(("sexpr-numbering".into(), format!("{}: variable {} is numbered {:?}, lexicographic position {}", text, names[*v], got, rank[i])));
         }
     }
     if mapping.len() != n || parsed.unique_variables().len() != n {
         return Some(("sexpr-numbering".into(), format!("{}: {} variables reported, {} occur", text, mapping.len(), n)));
     }
+    // the text's function over the documented numbering: table variable rank[i] is the i-th
+    // variable of the harness's own table f
+    let mut want: TT = 0;
+    for a in 0..(1usize << n) {
+        let mut mine = 0usize;
+        for i in 0..n {
+            if (a >> rank[i]) & 1 == 1 {
+                mine |= 1 << i;
+            }
+        }
+        if tt::eval(f, mine) {
+            want |= 1 << a;
+        }
+    }
     match guarded(|| LogicalExpr::from_sexpr(&parsed)) {
         Ok(le) => match logical_tt(&le, n) {
             Ok(g) => {
-                if g != f {
-                    return Some(("sexpr-models".into(), format!("{} parses to an expression denoting {:#x}, the text denotes {:#x}", text, g, f)));
+                if g != want {
+                    return Some(("sexpr-models".into(), format!("{} parses to an expression denoting {:#x}, the text denotes {:#x} under the lexicographic numbering", text, g, want)));
                 }
             }
             Err(m) => return Some(("sexpr-models".into(), m)),
